@@ -23,9 +23,75 @@ package kv
 
 // Key flags fit the trees' flag storage: every flag operation keeps the flag word below 2^14 (the red-black tree keeps
 // 14 bits of it, the radix tree 15), so no flag is silently dropped by either buffer. (C08)
+// What ONE operation does to the flag word (numeric masks as in the table below; 65535 - m clears m), and that a single-operation call
+// does exactly that: each Set turns on its own bit(s) and nothing else, each Del turns off its own, the assertion pair is
+// exclusive except for "unknown", and learning the locked value's existence clears the pending constraint check.
+//@ spec func applyOne(o KeyFlags, op FlagsOp) KeyFlags { return ite(op == SetPresumeKeyNotExists, o | 17, ite(op == DelPresumeKeyNotExists, o & 65518, ite(op == SetKeyLocked, o | 2, ite(op == DelKeyLocked, o & 65533, ite(op == SetNeedLocked, o | 4, ite(op == DelNeedLocked, o & 65531, ite(op == SetKeyLockedValueExists, (o | 8) & 63487, ite(op == SetKeyLockedValueNotExists, o & 63479, ite(op == DelNeedCheckExists, o & 65519, ite(op == SetPrewriteOnly, o | 32, ite(op == SetIgnoredIn2PC, o | 64, ite(op == SetReadable, o | 128, ite(op == SetNewlyInserted, o | 256, ite(op == SetAssertExist, (o & 64511) | 512, ite(op == SetAssertNotExist, (o & 65023) | 1024, ite(op == SetAssertUnknown, o | 1536, ite(op == SetAssertNone, o & 63999, ite(op == SetNeedConstraintCheckInPrewrite, o | 2048, ite(op == DelNeedConstraintCheckInPrewrite, o & 63487, ite(op == SetPreviousPresumeKNE, o | 4096, ite(op == SetKeyLockedInShareMode, o | 8192, ite(op == SetKeyLockedInExclusiveMode, o & 57343, o)))))))))))))))))))))) }
 //@ func ApplyFlagsOps
-//@   prop C08
+//@   prop C08 C07
 //@   may-panic
 //@   requires origin < 16384
 //@   loop 1 invariant fits: origin < 16384
+//@   loop 1 invariant idx: -1 <= rangeindex && rangeindex < len(ops)
+//@   loop 1 invariant start: rangeindex < 0 ==> origin == old(origin)
+//@   loop 1 invariant one: len(ops) == 1 && rangeindex == 0 ==> origin == applyOne(old(origin), ops[0])
 //@   ensures fits: result < 16384
+//@   ensures none: len(ops) == 0 ==> result == origin
+//@   ensures single: len(ops) == 1 ==> result == applyOne(origin, ops[0])
+
+// Every flag reader tests exactly its own bit(s) (numeric masks: 1 presume-not-exists, 2 locked, 4 need-locked,
+// 8 locked-value-exists, 16 need-check-exists, 32 prewrite-only, 64 ignored-in-2PC, 128 readable, 256 newly-inserted,
+// 512 assert-exist, 1024 assert-not-exist, 2048 need-constraint-check, 4096 previous-presume, 8192 locked-in-share-mode),
+// and only the four lock-related flags survive AndPersistent (what a staging cleanup keeps).
+//@ func (KeyFlags) HasAssertExist
+//@   prop C08 C07
+//@   ensures bit: result == (f&flagAssertExist != 0 && f&flagAssertNotExist == 0)
+//@ func (KeyFlags) HasAssertNotExist
+//@   prop C08 C07
+//@   ensures bit: result == (f&flagAssertNotExist != 0 && f&flagAssertExist == 0)
+//@ func (KeyFlags) HasAssertUnknown
+//@   prop C08 C07
+//@   ensures bit: result == (f&flagAssertExist != 0 && f&flagAssertNotExist != 0)
+//@ func (KeyFlags) HasAssertionFlags
+//@   prop C08 C07
+//@   ensures bit: result == (f&flagAssertExist != 0 || f&flagAssertNotExist != 0)
+//@ func (KeyFlags) HasPresumeKeyNotExists
+//@   prop C08 C07
+//@   ensures bit: result == (f&flagPresumeKNE != 0 || f&flagPreviousPresumeKNE != 0)
+//@ func (KeyFlags) HasLocked
+//@   prop C08 C07
+//@   ensures bit: result == (f&flagKeyLocked != 0)
+//@ func (KeyFlags) HasLockedInShareMode
+//@   prop C08 C07
+//@   ensures bit: result == (f&flagKeyLockedInShareMode != 0)
+//@ func (KeyFlags) HasNeedLocked
+//@   prop C08 C07
+//@   ensures bit: result == (f&flagNeedLocked != 0)
+//@ func (KeyFlags) HasLockedValueExists
+//@   prop C08 C07
+//@   ensures bit: result == (f&flagKeyLockedValExist != 0)
+//@ func (KeyFlags) HasNeedCheckExists
+//@   prop C08 C07
+//@   ensures bit: result == (f&flagNeedCheckExists != 0)
+//@ func (KeyFlags) HasPrewriteOnly
+//@   prop C08 C07
+//@   ensures bit: result == (f&flagPrewriteOnly != 0)
+//@ func (KeyFlags) HasIgnoredIn2PC
+//@   prop C08 C07
+//@   ensures bit: result == (f&flagIgnoredIn2PC != 0)
+//@ func (KeyFlags) HasReadable
+//@   prop C08 C07
+//@   ensures bit: result == (f&flagReadable != 0)
+//@ func (KeyFlags) HasNeedConstraintCheckInPrewrite
+//@   prop C08 C07
+//@   ensures bit: result == (f&flagNeedConstraintCheckInPrewrite != 0)
+//@ func (KeyFlags) HasNewlyInserted
+//@   prop C08 C07
+//@   ensures bit: result == (f&flagNewlyInserted != 0)
+//@ func (KeyFlags) AndPersistent
+//@   prop C08 C07
+//@   ensures mask: result == f & 10250 && result <= f
+// The flag constants themselves (a renumbering that makes two flags share a bit would merge their meaning)
+//@ lemma flagbits()
+//@   prop C08
+//@   ensures distinct: flagPresumeKNE == 1 && flagKeyLocked == 2 && flagNeedLocked == 4 && flagKeyLockedValExist == 8 && flagNeedCheckExists == 16 && flagPrewriteOnly == 32 && flagIgnoredIn2PC == 64 && flagReadable == 128 && flagNewlyInserted == 256 && flagAssertExist == 512 && flagAssertNotExist == 1024 && flagNeedConstraintCheckInPrewrite == 2048 && flagPreviousPresumeKNE == 4096 && flagKeyLockedInShareMode == 8192 && persistentFlags == 10250
